@@ -636,7 +636,13 @@ def process_extract(header, directives, ctx):
                     pat = text[toks[kw + 1].start:toks[q - 1].end]
                     ex = text[toks[q + 1].start:toks[hb - 1].end]
                     tail = [x.text for x in toks[hb - 4:hb]]
-                    if tail == ['.', 'iter', '(', ')']:
+                    tail8 = [x.text for x in toks[hb - 8:hb]]
+                    if tail8 == ['.', 'iter', '(', ')', '.', 'enumerate', '(', ')']:
+                        # `for (counter, PAT) in X.iter().enumerate()`: counter is the index
+                        base = text[toks[q + 1].start:toks[hb - 9].end]
+                        init = 'let it__%d = (%s).as_slice();' % (n, base)
+                        elem = '(i__%d, &it__%d[i__%d])' % (n, n, n)
+                    elif tail == ['.', 'iter', '(', ')']:
                         base = text[toks[q + 1].start:toks[hb - 5].end]
                         init = 'let it__%d = (%s).as_slice();' % (n, base)
                         elem = '&it__%d[i__%d]' % (n, n)
